@@ -256,6 +256,7 @@ pub fn child_main(start: usize, end: usize, exec: Arc<dyn Fn(usize) -> String + 
         // (wall time would misfire on a loaded machine), or has made no
         // progress for 20x the limit of wall time (blocked).
         let mut watch: Option<(u64, u64)> = None; // (case, cpu ticks when first seen late)
+        let mut warmed_seen = alloc::WARMED.load(Ordering::SeqCst);
         loop {
             if sh.finished.load(Ordering::SeqCst) {
                 let _ = handle.join();
@@ -281,6 +282,15 @@ pub fn child_main(start: usize, end: usize, exec: Arc<dyn Fn(usize) -> String + 
                 let now = t0.elapsed().as_millis() as u64 + 1;
                 let cur = sh.cur.load(Ordering::SeqCst);
                 if now > s + 500 {
+                    // time spent pre-touching a fresh large block (alloc.rs) is not the case's
+                    let warmed = alloc::WARMED.load(Ordering::SeqCst);
+                    if alloc::WARMING.load(Ordering::SeqCst) != 0 || warmed != warmed_seen {
+                        warmed_seen = warmed;
+                        watch = None;
+                        sh.started.store(now, Ordering::SeqCst);
+                        std::thread::sleep(Duration::from_millis(5));
+                        continue;
+                    }
                     // late: start (or continue) watching the CPU time of this case
                     let ticks = thread_cpu_ticks(sh.tid.load(Ordering::SeqCst)).unwrap_or(0);
                     let base = match watch {
